@@ -534,6 +534,9 @@ func (m *c11Machine) reap() {
 }
 
 func TestVerif_C11_Lockstep(t *testing.T) {
+	if !c11Supervise(t, "lockstep") {
+		return
+	}
 	vsnap.Quiet()
 	rec := vstat.New(t, "C11", "lockstep",
 		"rapid: schedules of 6..16 steps over <=3 streams on a real store with read timeout 150 ms, executed in lock-step: create full/incremental, open newest/older (+ reference stream), read-some, close, double close, read-after-close, wait-past-timeout, close-near-timeout, Reap() (manual mode) or blocking auto-reaper with threshold 2 (auto mode); model = per-stream hold derived from the harness clock (sound under load). non-trivial = a reap (manual or pending auto) is attempted while a stream is open, or a timeout fires; distinct by schedule")
@@ -717,6 +720,9 @@ func TestVerif_C11_Lockstep(t *testing.T) {
 
 // Free-running actors under the race detector.
 func TestVerif_C11_Stress(t *testing.T) {
+	if !c11Supervise(t, "stress") {
+		return
+	}
 	vsnap.Quiet()
 	rec := vstat.New(t, "C11", "stress",
 		"free-running actors on one store (read timeout 40 ms, auto-reap threshold 3) under -race for a fixed number of operations: 1 creator (full/incremental snapshots), 3 readers (open a known id, read in random chunks with random pauses some of which exceed the timeout, close once or twice), 1 manual reaper; every stream that was read to EOF without error must restore to the content recorded for its id; afterwards all holds must be gone (Reap succeeds). one case = one completed stream; non-trivial = stream overlapped in time with a reap attempt; distinct by (seed, stream ordinal)")
